@@ -86,6 +86,13 @@ ExpLS(t, finals) ==
         LET vs == Vertexes(t) ms == Masses(t, p)
         IN [i \in DOMAIN vs |-> [kind |-> vs[i].lskind, res |-> vs[i].name, L |-> LOf(vs[i]), mass |-> ms[i]]])))
 
+\* the i-th group of spin factors and the i-th group of lineshapes belong to the same permutation
+ExpGroups(t, finals) ==
+    BagOfSeq(MapSeq(SetToSeq(Perms(t, finals)), LAMBDA p :
+        [sfs |-> MapSeq(SpinFactors(t), LAMBDA sf : [name |-> sf, idx |-> p]),
+         lss |-> LET vs == Vertexes(t) ms == Masses(t, p)
+                 IN [i \in DOMAIN vs |-> [kind |-> vs[i].lskind, res |-> vs[i].name, L |-> LOf(vs[i]), mass |-> ms[i]]]]))
+
 ----------------------------------------------------------------------------
 (* judging.  C18E: one amplitude in one language:
      [line, finals, lang, obs = [raised, sfs = Seq([name, idx (1-based)]), lss = Seq([kind,res,L,mass]), n, title_ok]]
@@ -103,7 +110,9 @@ JudgeC18E(t, k) ==
         ChkD(t, "C18:spin-factors-per-permutation-carry-that-permutation",
              BagOfSeq(o.sfs) = ExpSF(ln, fin), [exp |-> ExpSF(ln, fin), obs |-> o.sfs]),
         ChkD(t, "C18:one-lineshape-per-resonance-per-permutation-kind-L-and-mass-indices",
-             BagOfSeq(o.lss) = ExpLS(ln, fin), [exp |-> ExpLS(ln, fin), obs |-> o.lss]) >>)
+             BagOfSeq(o.lss) = ExpLS(ln, fin), [exp |-> ExpLS(ln, fin), obs |-> o.lss]),
+        ChkD(t, "C18:spin-factors-and-lineshapes-of-one-permutation-go-together",
+             BagOfSeq(o.groups) = ExpGroups(ln, fin), [exp |-> ExpGroups(ln, fin), obs |-> o.groups]) >>)
 
 \* C19: events of a generated program.  ev = [k ("decl" | "use" | "amp"), sym, ...]
 DeclaredBeforeUse(evs, exempt) ==
